@@ -287,6 +287,32 @@ impl Prop for C13 {
                 }));
             }
         }
+        {
+            // two overlapping connections to a peer that stops answering, requests whose substreams
+            // are being opened on them, then one (or both) of the connections is lost
+            // (independent stream of the seed)
+            let mut r = Rng::fork(seed, "c13-two-connections");
+            if r.chance(1, 8) {
+                let (a, b) = (1u64, 2u64);
+                let t1 = 1_200 + r.below(600);
+                ops.push(json!({"at_ms": 20, "op": "connect", "node": a, "to": b}));
+                ops.push(json!({"at_ms": 20 + r.below(3), "op": "connect", "node": b, "to": a}));
+                faults.push(json!({"at_ms": t1, "kind": "freeze", "node": b, "heal_after_ms": *r.pick(&[3_000u64, 20_000])}));
+                for k in 0..r.range(1, 3) {
+                    uid += 1;
+                    ops.push(json!({
+                        "at_ms": t1 + 30 + k, "op": "request", "node": a, "to": b, "size": 40, "resp_size": 40,
+                        "dial": r.chance(1, 2), "try": false, "beh": "answer", "delay_ms": 1, "uid": uid,
+                    }));
+                }
+                let t2 = t1 + 60 + r.below(300);
+                faults.push(json!({"at_ms": t2, "kind": "reset", "k": r.below(2)}));
+                if r.chance(1, 3) {
+                    faults.push(json!({"at_ms": t2 + r.below(500), "kind": "reset", "k": 0}));
+                }
+                faults.sort_by_key(|f| f["at_ms"].as_u64().unwrap_or(0));
+            }
+        }
         ops.sort_by_key(|o| o["at_ms"].as_u64().unwrap_or(0));
         // ghost n+1 is, in a third of the runs, a live peer that speaks the protocol badly; then a
         // quarter of the requests go to it
